@@ -290,7 +290,66 @@ impl Gen {
             let parent = rng.pick(&idx.storages).clone();
             child_path(&parent, "nope")
         };
-        let class = rng.below(16);
+        let class = rng.below(19);
+        // "refused, obstacle repaired, same call again": what a caller does next after a
+        // refusal, and what a cache of a failed lookup would get wrong
+        if class >= 16 {
+            let slot = sess.free_slot();
+            let mk_new = |p: String| vec![Step::HOpen { slot, path: p, how: OpenHow::CreateNew }, Step::HClose { slot }];
+            match class {
+                16 => {
+                    // below a stream: refused; the stream goes; the parent is missing; the
+                    // parent becomes a storage; now it works
+                    if let Some(st) = any_stream(rng) {
+                        if sess.handle_on(&model::normalise(&st).unwrap_or_default()).is_none() {
+                            let child = child_path(&st, "x");
+                            let mut v = Vec::new();
+                            let stream_child = rng.chance(1, 2);
+                            let attempt = |v: &mut Vec<Step>| {
+                                if stream_child {
+                                    v.extend(mk_new(child.clone()));
+                                } else {
+                                    v.push(Step::Api(Op::CreateStorage(child.clone())));
+                                }
+                            };
+                            attempt(&mut v);
+                            v.push(Step::Api(Op::RemoveStream(st.clone())));
+                            attempt(&mut v);
+                            v.push(Step::Api(Op::CreateStorage(st.clone())));
+                            attempt(&mut v);
+                            return v;
+                        }
+                    }
+                }
+                17 => {
+                    // missing parent: refused; the parent is created; now it works; the
+                    // parent is removed with everything in it; refused again
+                    let parent = missing(rng);
+                    let child = child_path(&parent, "x");
+                    let mut v = mk_new(child.clone());
+                    v.push(Step::Api(Op::CreateStorage(parent.clone())));
+                    v.extend(mk_new(child.clone()));
+                    v.push(Step::Api(Op::RemoveStorageAll(parent.clone())));
+                    v.extend(mk_new(child));
+                    return v;
+                }
+                _ => {
+                    // name taken: refused; the holder goes; now it works
+                    if let Some(st) = any_stream(rng) {
+                        if sess.handle_on(&model::normalise(&st).unwrap_or_default()).is_none() {
+                            let mut v = mk_new(st.clone());
+                            v.push(Step::Api(Op::RemoveStream(st.clone())));
+                            if rng.chance(1, 2) {
+                                v.extend(mk_new(st));
+                            } else {
+                                v.push(Step::Api(Op::CreateStorage(st)));
+                            }
+                            return v;
+                        }
+                    }
+                }
+            }
+        }
         let op = match class {
             0 => Op::CreateStorage(child_path(&missing(rng), "x")), // missing parent
             1 => Op::CreateNewStream(child_path(&missing(rng), "x")),
